@@ -70,6 +70,12 @@ def run(ctx):
     ctx.rule(rule_no_mutation, 'C19.R3')
     ctx.rule(rule_length_checks, 'C19.R4')
     ctx.rule(rule_no_module_state, 'C19.R5')
+    # layout-insensitive: no public routine flattens / reshapes an array in memory order
+    from . import l2
+    quals = sorted(q for q, f in ctx.P.funcs.items()
+                   if f.module.name in ('emd.sift', 'emd.spectra', 'emd.cycles', 'emd._cycles_support', 'emd.utils',
+                                        'emd.support') and f.parent is None)
+    ctx.rule(l2.rule_layout, 'C19.R6', quals, narrow=False)
     l1.rule_lib_attrs(ctx, 'L1', ['emd.support.ensure_equal_dims', 'emd.support.ensure_vector',
                                   'emd.support.ensure_1d_with_singleton', 'emd.support.ensure_2d'], 'input validation')
 
